@@ -34,7 +34,13 @@ def run_property(prop_id, index, tier="quick", seed=0):
     mod = importlib.import_module(f"cxa.props.{prop_id.lower()}")
     CURRENT[0] = None
     try:
-        return mod.run(index, tier=tier, seed=seed)
+        res = mod.run(index, tier=tier, seed=seed)
+        rb = getattr(index, "renamed_back", None)
+        if rb:
+            # private helpers that were renamed since the confirmed tree and were matched to their reference (cxa/canon.py)
+            res.extra["private_helpers_renamed_back"] = {k: v for k, v in sorted(rb.items())}
+            res.notes.append(f"{len(rb)} renamed private helper(s) analysed under their reference names: " + ", ".join(f"{k} -> {v}" for k, v in sorted(rb.items())[:12]))
+        return res
     except AnalysisError as e:
         cur = CURRENT[0]
         if cur is not None and cur.prop_id == prop_id and cur.findings:
